@@ -551,6 +551,13 @@ def run(report, prog, tier):
 
 D = 'nfc.dep'
 MUTANTS = [
+    ('frontend-repeats-exchange', 'nfc.clf', "            rcvd_data = exchange(self.target, send_data, timeout)\n", "            try:\n                rcvd_data = exchange(self.target, send_data, timeout)\n            except TransmissionError:\n                rcvd_data = exchange(self.target, send_data, timeout)\n", 'C04-R6'),
+    ('initiator-timeout-answered-with-nack', 'nfc.dep', """            except nfc.clf.TimeoutError:
+                request_attention(self, 2, rwt, deadline)
+                continue""", """            except nfc.clf.TimeoutError:
+                request_attention(self, 2, rwt, deadline)
+                res = request_retransmission(self, 2, rwt, deadline)
+                break""", 'C04-R6'),
     ('initiator-deadline-rearmed-after-atn', DEP, """                request_attention(self, 2, rwt, deadline)
                 continue""", """                request_attention(self, 2, rwt, deadline)
                 deadline = time.time() + rwt
